@@ -143,8 +143,10 @@ def fresh_local_root(v, _seen=None):
 
 def v2(ctx, fx, U):
     nuse = 0
-    for name in sorted(U.vreach):
-        fn = fx.fns[name]
+    # judged on the canonical views of the functions that are subjects of their own: a private helper that receives the map (or the digest as
+    # a string) is spliced into its callers and its lookups are judged there, with the callers' arguments
+    for fn in fx.subjects(sorted(U.vreach)):
+        name = fn.name
         if fn.is_macro_generated():
             continue
         fv = vals(fn)
@@ -156,6 +158,8 @@ def v2(ctx, fx, U):
             if recv_is_field(n, DECODED):
                 if nm == "insert" or (nm in ("new", "default")):
                     continue
+                if nm in ("clear", "reserve", "shrink_to_fit"):
+                    continue  # re-initialisation / capacity management by the map's writer: nothing is read
                 if nm == "entry" and any(ev.entry is n for (_, ev) in c07.map_insert_events(fn, DECODED)):
                     nuse += 1
                     ctx.ok("C03.V2", fn, "keyed:entry", "keyed access through the Entry API (the vacant-slot insert is judged by C03.V1)", line=t.get("line"))
